@@ -35,6 +35,8 @@ def preload():
 
 
 def gen_case(rng, tier, idx):
+    if rng.random() < 0.01:
+        return _long_chain_case(rng)
     spec = gen_mdp_spec(rng, proper=rng.random() < 0.6, discounts=(0.5, 0.8, 0.9, 0.95, 1.0, 1.0))
     v = MDPView(spec)
     pol = []
@@ -58,6 +60,22 @@ def gen_case(rng, tier, idx):
     return dict(spec=spec, cfg=cfg, sched=sched)
 
 
+def _long_chain_case(rng):
+    """An option that walks a chain of 350-450 states at discount 0.05 / 0.1 / 0.5: gamma**t leaves the float range on the way."""
+    n = rng.randint(350, 450)
+    trans = []
+    for s in range(n):
+        outs = [[s + 1, 8, rng.choice((-1.0, 0.0, 1.0))]] if rng.random() < 0.9 else [[s + 1, 7, -1.0], [s, 1, 0.0]]
+        trans.append([s, 0, outs])
+    trans.append([n, 0, [[n, 8, 0.0]]])
+    spec = dict(kind=rng.choice(('int', 'str', 'int0')), n=n, absorbing=[n], nA=1, gamma=rng.choice((0.05, 0.1, 0.5)), trans=trans,
+                init=[[0, 8]], proper=True)
+    cfg = dict(kind='simple', pol=[[[0, 8]] for _ in range(n + 1)], term=[n], max_steps=1000, rel=rng.choice((0, 1, 2)), nsim=rng.choice((1, 3)),
+               start=rng.choice((0, 0, 5)), seed=3, include_abs=True, clip=None, override=[], optname='walk',
+               include_mdp_actions=False, alias='fresh', ask_actions=False, long_chain=True)
+    return dict(spec=spec, cfg=cfg, sched=gen_sched(rng, ('P',), budget_choices=(None,), coop=False, cap=200000))
+
+
 def execute(case, script=None):
     import random as _r
     _r.seed(f"global:{case.get('verif_seed')}:{case.get('index')}")
@@ -65,7 +83,7 @@ def execute(case, script=None):
     ctx = RunCtx(PROP, view)
     ctx.declare_probes('option_raised_must', 'option_returned_must', 'boundary_raised', 'start_terminal',
                        'smdp_call_raised', 'smdp_dist_checked', 'primitive_checked', 'static_override_sets', 'plan_option',
-                       'subtask_plan_checked', 'f7_before', 'f7_boundary', 'f7_after', 'cross_call_checked', 'smdp_actions_asked')
+                       'subtask_plan_checked', 'f7_before', 'f7_boundary', 'f7_after', 'cross_call_checked', 'smdp_actions_asked', 'option_run_longer_than_330_steps')
     sched = make_scheduler(case, script, ctx)
     try:
         return _execute(view, case['cfg'], ctx, sched)
@@ -180,6 +198,8 @@ def _execute(view, cfg, ctx, sched):
             ctx.probe('boundary_raised' if outcome == 'raise' else 'boundary_returned')
         if n == 0:
             ctx.probe('start_terminal')
+        if n > 330:
+            ctx.probe('option_run_longer_than_330_steps')
         if outcome == 'ok':
             ctx.check(res is inner or [dict(x) for x in res.steps] == [dict(x) for x in inner.steps], 'option-run',
                       f"{tag}: the option returned something other than its policy's trajectory")
